@@ -105,6 +105,8 @@ pub fn sgr_groups() -> Vec<&'static str> {
         "49", "38;5;0", "38;5;7", "38;5;8", "38;5;196", "38:5:196", "38;2;1;2;3", "38:2:1:2:3", "48;5;21", "48:5:21",
         "48;2;4;5;6", "48:2:4:5:6", "58;5;9", "58:5:9", "58;2;7;8;9", "58:2:7:8:9", "4:0", "4:1", "4:2", "4:3", "4:4",
         "4:5", "01", "031", "38;05;010", "10", "50", "60", "98", "108", "255",
+        // truecolor components that are themselves SGR colour codes (a mis-parse turns them into 16-colour codes)
+        "38;2;40;44;52", "48;2;31;91;104",
     ]
 }
 
